@@ -230,6 +230,10 @@ class ShardCtx:
             col.add(sub, case, out)
             if out.violation and not out.known:
                 raise _Found()
+            if use_target and out.info and "target" in out.info:
+                from hypothesis import target
+
+                target(out.info["target"])
 
         try:
             test()
